@@ -19,9 +19,10 @@ using std::vector;
 struct FieldDef {
   char kind;    // 'N' numeric 1 byte (UCH), 'W' numeric 2 bytes (UIN), 'S' string of 2 characters (STR:2),
                 // scan message only: 'P' numeric BCD 2 bytes (PIN), '5' string of 5 characters (STR:5),
-                // 'i' / 'j' ignored filler of 1 / 2 bytes (IGN:1, IGN:2; no name, not a field for the CSV author)
+                // 'i' / 'j' ignored filler of 1 / 2 bytes (IGN:1, IGN:2; no name, not a field for the CSV author),
+                // 'L' numeric 4 bytes (ULG) with the value alphabet BIGS
   string name;
-  bool numeric() const { return kind == 'N' || kind == 'W' || kind == 'P'; }
+  bool numeric() const { return kind == 'N' || kind == 'W' || kind == 'P' || kind == 'L'; }
   bool ignored() const { return kind == 'i' || kind == 'j'; }
 };
 
@@ -67,8 +68,9 @@ struct Config {
   string family;
   vector<MsgDef> msgs;
   vector<Part> parts;      // the guard is the AND of all parts
-  bool alt = false;        // a second definition of g guarded by the complementary condition "k2"
-  Part altPart;
+  bool alt = false;        // a second definition of g guarded by another condition (complementary "k2", or a second
+  Part altPart;            // condition derived from the same base)
+  vector<Part> extras;     // conditions that are defined in the file but guard nothing (resolution only)
   vector<vector<ValueVector> > values;  // per message: the value vectors a history may store
   bool valid = false;
 };
@@ -115,6 +117,7 @@ inline bool refPartTrue(const Part& p, int targetField, const ValueVector* last)
 static const unsigned NUMS[4] = {1, 2, 3, 4};
 static const char* STRS[4] = {"ab", "cd", "ef", "gh"};
 static const char* STRS5[4] = {"abcde", "fghij", "klmno", "pqrst"};
+static const unsigned BIGS[4] = {2, 65535, 65536, 4294967294u};  // values of 4-byte fields: around 16 bit and near UINT_MAX
 
 struct Shape { const char* name; CondKind kind; const char* text; vector<unsigned> nums; vector<int> strIdx; };
 inline const vector<Shape>& shapes() {
@@ -132,10 +135,24 @@ inline const vector<Shape>& shapes() {
   };
   return s;
 }
+// shapes over the alphabet BIGS (4-byte fields only)
+inline const vector<Shape>& bigShapes() {
+  static const vector<Shape> s = {
+    {"bgt", CK_NUM, ">65535", {65536, 4294967294u}, {}},
+    {"bge", CK_NUM, ">=3", {65535, 65536, 4294967294u}, {}},
+    {"blt", CK_NUM, "<65536", {2, 65535}, {}},
+    {"ble", CK_NUM, "<=65535", {2, 65535}, {}},
+    {"brange", CK_NUM, "65536-4294967294", {65536, 4294967294u}, {}},
+    {"blist", CK_NUM, "2;4294967294", {2, 4294967294u}, {}},
+  };
+  return s;
+}
 inline const Shape* findShape(const string& n) {
   for (const Shape& s : shapes()) if (n == s.name) return &s;
+  for (const Shape& s : bigShapes()) if (n == s.name) return &s;
   return nullptr;
 }
+inline bool isBigShape(const string& n) { return !n.empty() && n[0] == 'b'; }
 
 inline void applyShape(Part* p, const Shape& s, bool str5) {
   p->shape = s.name;
@@ -169,7 +186,8 @@ inline vector<ValueVector> rotatedVectors(const MsgDef& m, int target) {
     for (size_t i = 0; i < m.fields.size(); i++) {
       int rot = (j + static_cast<int>(i) - target + 8) % 4;
       Value v;
-      if (m.fields[i].numeric() || m.fields[i].ignored()) v.num = NUMS[rot];  // filler: first byte = rotated value, rest 00
+      if (m.fields[i].kind == 'L') v.num = BIGS[rot];
+      else if (m.fields[i].numeric() || m.fields[i].ignored()) v.num = NUMS[rot];  // filler: first byte = rotated value, rest 00
       else v.str = m.fields[i].kind == '5' ? STRS5[rot] : STRS[rot];
       vv.push_back(v);
     }
@@ -195,7 +213,7 @@ inline bool validLayout(const string& lay, const string& part) {
   if (lay.empty() || lay.size() > 4 || (part != "s" && part != "m" && part != "u")) return false;
   bool real = false;
   for (char ch : lay) {
-    if (ch != 'N' && ch != 'W' && ch != 'S' && ch != 'i' && ch != 'j') return false;
+    if (ch != 'N' && ch != 'W' && ch != 'S' && ch != 'i' && ch != 'j' && ch != 'L') return false;
     if (ch != 'i' && ch != 'j') real = true;
   }
   return real;
@@ -241,7 +259,23 @@ inline Config makeConfig(const string& desc) {
     int t = -1;
     refResolvable(c, p, &t);
     c.values.push_back(rotatedVectors(c.msgs[0], t));
+    if (t >= 0 && s->kind == CK_NUM && (c.msgs[0].fields[static_cast<size_t>(t)].kind == 'L') != isBigShape(shape)) return c;
     if (kv.count("zz")) { if (kv["zz"] != "c") return c; c.msgs[0].noDst = true; }
+    if (kv.count("extra")) {
+      // extra=<name>:<why>: a further condition in the same file that guards nothing; name "a" sorts before "k", "z"
+      // behind it; why = nomsg (message missing) | x (field missing) | ok (resolvable)
+      string e = kv["extra"];
+      size_t colon = e.find(':');
+      if (colon == string::npos) return c;
+      Part x = p;
+      x.condName = x.defName = e.substr(0, colon);
+      string why = e.substr(colon + 1);
+      x.msg = 0;
+      if (why == "nomsg") { x.msg = -1; x.fieldRef = ""; }
+      else if (why == "x") x.fieldRef = "zz";
+      else if (why != "ok") return c;
+      c.extras.push_back(x);
+    }
     if (c.family == "alt") {
       // complementary alternative: numeric values not in the first list
       if (s->kind != CK_NUM) return c;
@@ -327,6 +361,44 @@ inline Config makeConfig(const string& desc) {
     }
     c.parts.push_back(p1);
     c.parts.push_back(p2);
+    c.valid = true;
+  } else if (c.family == "derived2") {
+    // two definitions of g guarded by conditions derived on the fly from ONE base condition (the usual ebusd pattern):
+    // var=two: [k<A>] and [k<B>] with different value lists; var=same: the same derived condition guards both
+    // definitions (second use = cache hit); var=base: the base condition itself guards the first definition and a
+    // condition derived from it the second
+    string var = kv["var"], base = kv["base"];
+    const Shape* sa = findShape(kv["sa"]);
+    const Shape* sb = findShape(kv["sb"]);
+    if (!validLayout(lay, part) || !sa || !sb || sa->kind != CK_NUM || sb->kind != CK_NUM) return c;
+    if (base != "list" && base != "seen") return c;
+    if (var != "two" && var != "same" && var != "base") return c;
+    if (var == "base" && base != "list") return c;
+    c.msgs.push_back(makeMsg("ref", "b5090d0000", lay, part[0]));
+    Part pa, pb;
+    pa.msg = pb.msg = 0;
+    pa.defName = pb.defName = "k";
+    applyShape(&pa, *sa, false);
+    applyShape(&pb, var == "same" ? *sa : *sb, false);
+    if (!applyRef(&c, &pa, ref) || !applyRef(&c, &pb, ref)) return c;
+    auto derivedName = [](const string& v) { return (v[0] == '<' || v[0] == '>') ? "k" + v : "k=" + v; };
+    string baseText = var == "base" ? pa.valueText : (base == "list" ? string("2;4") : string());
+    if (var == "base") {
+      pa.condName = "k";
+    } else {
+      pa.derived = true;
+      pa.condName = derivedName(pa.valueText);
+      pa.baseValueText = baseText;
+    }
+    pb.derived = true;
+    pb.condName = derivedName(pb.valueText);
+    pb.baseValueText = baseText;
+    c.parts.push_back(pa);
+    c.alt = true;
+    c.altPart = pb;
+    int t = -1;
+    refResolvable(c, pa, &t);
+    c.values.push_back(rotatedVectors(c.msgs[0], t));
     c.valid = true;
   } else if (c.family == "derived") {
     // base=list: "*[k],c,ref,,f,,1;3"; base=seen: "*[k],c,ref,,f" ; the guard uses [k<op><values>]
@@ -498,6 +570,47 @@ inline vector<string> enumerate(bool thorough) {
       out.push_back(string("fam=and;var=") + var + ";s1=" + s1 + ";s2=" + s2);
     }
     out.push_back("fam=and;var=twoz;s1=seen;s2=lt");
+  }
+  // several conditions derived from one base; one unresolvable condition among resolvable ones; 4-byte values
+  {
+    for (const char* var : {"two", "same", "base"}) for (const char* base : {"list", "seen"}) {
+      if (string(var) == "base" && string(base) != "list") continue;
+      struct SP { const char* a; const char* b; };
+      for (SP sp : vector<SP>{{"list", "range"}, {"lt", "ge"}, {"le", "list"}}) {
+        for (const char* lr : {"lay=N;ref=n0", "lay=SN;ref=n1", "lay=jN;ref=n1"}) {
+          if (!thorough && string(lr) != "lay=N;ref=n0" && string(sp.a) != "list") continue;
+          out.push_back(string("fam=derived2;var=") + var + ";base=" + base + ";" + lr + ";sa=" + sp.a + ";sb=" + sp.b);
+        }
+      }
+    }
+    for (const char* extra : {"a:nomsg", "z:nomsg", "a:x", "z:x", "a:ok", "z:ok"}) {
+      for (const char* s : {"list", "ge", "string", "seen"}) {
+        bool str = string(s) == "string";
+        for (const char* lay : {"N", "S", "NS"}) {
+          string l = lay;
+          if ((l[0] == 'S') != str && string(s) != "seen") continue;
+          if (string(s) == "seen" && (string(extra) == "a:x" || string(extra) == "z:x")) continue;  // "seen" names no field
+          if (!thorough && l == "NS") continue;
+          out.push_back(string("fam=simple;lay=") + l + ";shape=" + s + ";ref=" + (string(s) == "seen" ? "u" : "n0") + ";extra=" + extra);
+        }
+      }
+    }
+    vector<string> bl = {"lay=L", "lay=jL"};
+    if (thorough) { bl.push_back("lay=NL"); bl.push_back("lay=L;part=m"); bl.push_back("lay=iL;part=u"); }
+    for (const string& l : bl) {
+      string lay = l.substr(4, l.find(';') == string::npos ? string::npos : l.find(';') - 4);
+      size_t first = 0;
+      while (lay[first] == 'i' || lay[first] == 'j') first++;
+      size_t li = lay.find('L');
+      for (const Shape& s : bigShapes()) {
+        char b[8];
+        snprintf(b, sizeof(b), "n%zu", li);
+        out.push_back("fam=simple;" + l + ";shape=" + s.name + ";ref=" + b);
+        if (first == li) out.push_back("fam=simple;" + l + ";shape=" + s.name + ";ref=u");
+      }
+      out.push_back("fam=simple;" + l + ";shape=bge;ref=x");
+    }
+    for (const char* s : {"bge", "bgt", "brange"}) out.push_back(string("fam=derived;base=seen;lay=L;shape=") + s + ";ref=n0");
   }
   for (const char* s : {"list", "string", "seen"}) out.push_back(string("fam=simple;lay=N;shape=") + s + ";ref=nomsg");
   // two alternative definitions guarded by complementary conditions
